@@ -2635,6 +2635,9 @@ def _frontend(name):
     return m
 
 
+LAST_TRANSLATORS = {}       # qualified name -> FnTranslator of the last translate_spec call (read by the self-test)
+
+
 def translate_spec(repo, spec):
     """-> (coq text, [{"function", "sha1", "source"}]); raises Unsupported."""
     if spec.get("frontend"):
@@ -2678,6 +2681,7 @@ def translate_spec(repo, spec):
             what, node.lineno, node.end_lineno, spec["source"], hashlib.sha1(fs.encode()).hexdigest(), note, code))
         helpers |= ft.ghelpers
         done[key] = ft
+        LAST_TRANSLATORS[key] = ft
     head = ("(* GENERATED by tools/py2coq.py from %s - never edit, never commit.\n"
             "   Shallow Gallina definitions of: %s. *)\n"
             "From Coq Require Import List ZArith Bool Arith Floats.\nImport ListNotations.\n\n"
